@@ -381,6 +381,13 @@ class Link(object):
                 self._rec(idx, actor, 'w', len(data), timeout, type(e).__name__)
                 raise
         k = self.deliver(data, actor)
+        gw = self.cfg.get('ghost_in_write')
+        if gw and not getattr(self, 'ghost_runs', None) and self.writes >= gw.get('nth', 0) and 0 < k < len(data):
+            # while this object is between two pieces of one message (the transport took only a part), another device object of the
+            # same process -- its own transport, its own locks -- runs a whole session: a legal schedule for two threads
+            from .runner import execute
+            from .tape import Tape, h64
+            self.ghost_runs = [execute(gw['scn'], Tape(h64('ghost-in-write', gw.get('seed', 0))))]
         if k == 0 and len(data) > 0:
             # nothing accepted: a socket would block until the timeout, then report it
             if timeout is not None and timeout > 0:
